@@ -430,6 +430,64 @@ def _resource(ctx, sig, data, detail, prefix="fuzz"):
     ctx.violation("runaway-allocation:oom@" + site, detail)
 
 
+_NOT_LOOP_OWNERS = re.compile(r"^(\?|main|run_one|_start|__libc_start|clone3?|start_thread|_?_?pthread|std::|__gnu_cxx::|execute_native_thread_routine|"
+                              r".*ThreadPool.*|.*_Function_handler.*|.*_M_invoke.*)")
+
+
+def _loop_owner(out):
+    """'hang' mode output -> deepest function present in ALL stack samples of the busiest thread (a callee that is re-entered
+    in every iteration is absent from the samples taken in its siblings; the loop owner is in all of them); innermost first
+    in each 'S k thread f0 f1 ...' line; names are demangled"""
+    import subprocess
+    by_thread = {}
+    for l in out.splitlines():
+        if l.startswith("S "):
+            f = l.split()
+            by_thread.setdefault(f[2], []).append(f[3:])
+    if not by_thread:
+        return None
+    stacks = max(by_thread.values(), key=len)     # the busiest thread (CPU-time signals go to the threads that burn it)
+    if len(stacks) < 10:
+        return None
+    common = set(stacks[0])
+    for st in stacks[1:]:
+        common &= set(st)
+    for fn in stacks[0]:                         # innermost first
+        if fn in common and fn != "?":
+            name = fn
+            try:
+                name = subprocess.run(["c++filt", fn], capture_output=True, text=True, timeout=10).stdout.strip() or fn
+            except Exception:          # noqa: BLE001
+                pass
+            name = "::".join(re.sub(r"\(.*", "", re.sub(r"<.*?>", "", name)).split("::")[-2:])
+            if not _NOT_LOOP_OWNERS.match(name):
+                return name
+    return None
+
+
+def _confirm_runaway(ctx, data, detail):
+    """a per-input watchdog timeout on a document that does NOT ask for large sizes: re-run the bytes alone in the release
+    harness with a 6x larger CPU-time cap; if the load still does not return, it is reported, keyed by the function that owns
+    the non-terminating loop (deepest frame common to three stack samples)"""
+    try:
+        exe = build.exe("rel", "h_xmlfuzz", ["h_xmlfuzz.cc"])
+        d = Path(tempfile.mkdtemp(prefix="vf-c37-hang-", dir="/tmp"))
+        try:
+            f = d / "in.xml"
+            f.write_bytes(data)
+            r = nat.run_exe(exe, ["hang", f, detail.get("api", 0) or 0, detail.get("errsz", 1000) or 1000, 60], "rel", timeout=1500, leaks=False)
+        finally:
+            shutil.rmtree(d, ignore_errors=True)
+    except Exception as ex:          # noqa: BLE001
+        ctx.count("fuzz_input_timeouts_confirmation_failed")
+        return
+    if "\nT 0" in "\n" + r["out"] or r["timed_out"]:
+        owner = _loop_owner(r["out"]) or "?"
+        ctx.violation("runaway-loop:no-return@" + owner, dict(detail, samples=[l[:400] for l in r["out"].splitlines() if l.startswith("S ")][:6]))
+    else:
+        ctx.count("fuzz_input_timeouts_not_reproduced")       # slow under ASan / machine load only
+
+
 def _alloc_site(text):
     """innermost repo frame of an out-of-memory report"""
     for line in text.splitlines():
@@ -493,6 +551,9 @@ def _record_event(ctx, flavour, seed, e):
         ctx.extra.setdefault("timeout_inputs", [])
         if len(ctx.extra["timeout_inputs"]) < 10:
             ctx.extra["timeout_inputs"].append(dict(flavour=flavour, fuzz_seed=seed, index=e.get("index")))
+        if data and not _requests_resources(data):
+            ctx.count("fuzz_input_timeouts_small_document")
+            _confirm_runaway(ctx, data, detail)
     elif t == "leak":
         ctx.count("fuzz_leak_reports")
         sig, _ = san_signature("LeakSanitizer", e["text"])
@@ -746,6 +807,8 @@ def _apply_rule(G, M, root, node, decl, ctx, rule):
         if M.el[decl].alias or decl in ("body", "mujoco"):
             pool = [t for t in pool if t not in ("worldbody",)] or pool
         tag = "vfunknown" if rng.random() < 0.3 else pool[int(rng.integers(len(pool)))]
+        if decl == "mujoco" and rng.random() < 0.35:
+            tag = META[int(rng.integers(2))]          # the two tags mjXSchema::NameMatch admits for the body row at every level
         ch = ET.Element(tag)
         node.append(ch)
         return tag
